@@ -13,11 +13,9 @@ oracle: the clauses of the property on the implementation alone (harness/c20_wir
 """
 from __future__ import annotations
 
-import copy
 import math
 import os
 import re
-import subprocess
 import traceback
 
 from . import common as C
@@ -544,6 +542,11 @@ def gen_args(rng, v):
             a.update(exec="4", status="4", cum=cum, leaves=0.0, orig=v["orig"])
         elif k == "pcancel":
             a.update(exec="6", status="6", orig=v["orig"])
+            r = rng.random()
+            if r < 0.25:
+                a["cum"] = rng.choice([cum, cum + 0.125, 0.0])
+            elif r < 0.5:
+                a["leaves"] = rng.choice([float(leaves), leaves + 0.125, 0.0])
         elif k == "replace":
             nq = max(cum + 0.125, q8(rng, 1, 200))
             a.update(exec="5", status="1" if cum > 0 else "0", cum=cum, leaves=nq - cum, price=q8(rng, 1, 500), oqty=nq,
@@ -572,9 +575,10 @@ def gen_args(rng, v):
         nums = [None, None, 0.0, -0.125, float(qty), qty + 0.125, cum, float(leaves), max(0.0, qty - cum), 1.0, 5, 0.125]
         a.update(
             clord=rng.choice([v["clord"]] * 6 + [v["orig"] or v["clord"], "foreign", ""]),
-            exec=rng.choice(EXECS + ["F", "5", "6", "0", "4"]), status=rng.choice(STATS + ["X?"] if rng.random() < 0.1 else STATS),
-            cum=rng.choice(nums), leaves=rng.choice(nums), last=rng.choice([None, None, None, 1.0, 0.125, 0.0, -1.0, 2]),
-            price=rng.choice([None, None, None, 99.5, 100]), oqty=rng.choice([None, None, None, float(qty), qty + 8.0, 0.0, -1.0, 50]),
+            exec=rng.choice(EXECS + ["F", "5", "6", "0", "4"]), status=rng.choice(STATS + ["X?", ""] if rng.random() < 0.15 else STATS),
+            cum=rng.choice(nums), leaves=rng.choice(nums),
+            last=rng.choice([None] * 8 + [1.0, 0.125, 0.0, -1.0, 2]),
+            price=rng.choice([None] * 8 + [99.5, 100]), oqty=rng.choice([None] * 10 + [float(qty), qty + 8.0, 0.0, -1.0, 50]),
             orig=rng.choice([None, None, v["orig"], v["clord"], "", "other"]), avg=rng.choice([0.0, 0.0, 101.25, 7, -1.5]),
         )
         if a["last"] is not None and rng.random() < 0.5 and a["cum"] is not None:
@@ -586,11 +590,11 @@ def mutate_view(rng, v):
     """states no flow reaches but a user's order object may be in (robustness of the model)"""
     v = dict(v)
     k = rng.random()
-    if k < 0.3:
+    if k < 0.2:
         v["account"] = None
-    elif k < 0.5:
+    elif k < 0.4:
         v["oid"] = rng.choice([None, "X-77", "12"])
-    elif k < 0.7:
+    elif k < 0.75:
         v["orig"] = rng.choice([None, "", v["clord"], "prev--1"])
     else:
         v["status"] = rng.choice(STATS)
@@ -697,7 +701,8 @@ def correspondence(ctx):
     for c, ml in zip(rcases, drv.batch(rlines) if rlines else []):
         il = impl_request(c)
         seen.add(("req", c["kind"], order_tokens(c["order"]), num_tok(c["price"]), num_tok(c["qty"])))
-        inc("req:" + c["kind"] + ":" + " ".join(il.split(" # ")[2].split(" ")[:2])[:40])
+        res = il.split(" # ")[2]
+        inc("req:" + c["kind"] + ":" + ("ok" if res.startswith("ok") else res))
         if il != canon_request(ml):
             dis.append({"input": c, "model": ml, "impl": il})
     n_eval += len(rcases)
@@ -719,7 +724,9 @@ def correspondence(ctx):
     for c, ml in zip(jcases, drv.batch(jlines) if jlines else []):
         il, _m = impl_cxlrej(c)
         seen.add(("cxlrej", order_tokens(c["order"]), c["status"], c["req"][0]))
-        inc("cxlrej:" + " ".join(il.split(" ")[:2])[:30])
+        inc("cxlrej:" + ("ok" if il.startswith("ok") else il))
+        if " # " in il:
+            inc("cxlrej-proc:" + " ".join(il.split(" # ")[1].split(" ")[:2]))
         if il != ml:
             dis.append({"input": c, "model": ml, "impl": il})
     n_eval += len(jcases)
